@@ -180,6 +180,7 @@ type Exec struct {
 	newKeys  int64
 	lazyObjs map[any]*Obj
 	keep     []any
+	eager    []eagerFrame
 	lenient  bool
 	trans    int64
 	Values   map[string]any // per-execution scratch for harness / fakes
@@ -263,12 +264,20 @@ func (ex *Exec) key(kind uint8, extra uint64) uint64 {
 
 // Failf records a violation in the current execution (the execution continues).
 func Failf(class, format string, a ...any) {
+	if passthrough {
+		return
+	}
 	ex := mustExec("Failf")
 	ex.fails = append(ex.fails, Failure{Class: class, Detail: fmt.Sprintf(format, a...)})
 }
 
 // SetOutcome records the canonical observable outcome of the execution.
-func SetOutcome(s string) { mustExec("SetOutcome").outcome = s }
+func SetOutcome(s string) {
+	if passthrough {
+		return
+	}
+	mustExec("SetOutcome").outcome = s
+}
 
 func (ex *Exec) end() {
 	if !ex.ended {
@@ -547,6 +556,10 @@ func (ex *Exec) dispatch(from *Thread) {
 			continue
 		}
 		ex.fireAlt(a)
+		if a.partner != nil {
+			// the rendezvous partner runs its invisible local steps up to its next scheduling point now
+			ex.runUntilYield(a.partner)
+		}
 		next := a.t
 		ex.cur = next
 		if next == from {
@@ -568,7 +581,11 @@ func (ex *Exec) block(p *pend) *Thread {
 		HarnessError("hooked operation %s called from outside a managed thread", kindName[p.kind])
 	}
 	t.pend = p
-	ex.dispatch(t)
+	if ex.eagerReturn(t) {
+		<-t.wake
+	} else {
+		ex.dispatch(t)
+	}
 	if t.panicMsg != "" {
 		m := t.panicMsg
 		t.panicMsg = ""
@@ -611,8 +628,46 @@ func Go(site string, f func()) {
 		t.done = true
 		t.pend = nil
 		ex.note(t, kDone, nil, 0)
-		ex.dispatch(t)
+		if !ex.eagerReturn(t) {
+			ex.dispatch(t)
+		}
 	}()
+	if parent != nil {
+		// the new thread's code up to its first scheduling point is invisible to the others: run it now
+		// (removes the separate "thread start" scheduling point)
+		ex.runUntilYield(t)
+	}
+}
+
+type eagerFrame struct {
+	t   *Thread
+	ret chan struct{}
+}
+
+// runUntilYield lets x run until it publishes its next pending operation (or ends), then returns.
+func (ex *Exec) runUntilYield(x *Thread) {
+	if ex.ended {
+		return
+	}
+	prev := ex.cur
+	fr := eagerFrame{t: x, ret: make(chan struct{}, 1)}
+	ex.eager = append(ex.eager, fr)
+	ex.cur = x
+	x.wake <- struct{}{}
+	<-fr.ret
+	ex.cur = prev
+}
+
+// eagerReturn hands control back to the goroutine that is eagerly running t (if any).
+func (ex *Exec) eagerReturn(t *Thread) bool {
+	n := len(ex.eager)
+	if n == 0 || ex.eager[n-1].t != t {
+		return false
+	}
+	fr := ex.eager[n-1]
+	ex.eager = ex.eager[:n-1]
+	fr.ret <- struct{}{}
+	return true
 }
 
 func clip(s string, n int) string {
@@ -639,8 +694,11 @@ func panicClass(r any, stack string) string {
 			seen = true
 			continue
 		}
-		if !seen || strings.HasPrefix(l, "\t") || strings.HasPrefix(l, "runtime.") || strings.HasPrefix(l, "runtime/") || strings.HasPrefix(l, "verif/h/vsched") {
+		if !seen || strings.HasPrefix(l, "\t") || strings.HasPrefix(l, "runtime.") || strings.HasPrefix(l, "runtime/") || strings.HasPrefix(l, "verif/h/vsched.") || strings.HasPrefix(l, "verif/h/vsched/fake") {
 			continue
+		}
+		if strings.HasPrefix(l, "created by") {
+			break
 		}
 		if p := strings.LastIndex(l, "("); p > 0 {
 			l = l[:p]
@@ -703,6 +761,9 @@ func Choose(n int, label string, cost int) int {
 
 // LiveThreads lists the spawn sites of managed threads that have not finished (excluding the caller).
 func LiveThreads() []string {
+	if passthrough {
+		return nil
+	}
 	ex := mustExec("LiveThreads")
 	var s []string
 	for _, t := range ex.threads {
@@ -715,7 +776,35 @@ func LiveThreads() []string {
 }
 
 // LiveDesc describes the unfinished threads and what they are blocked on.
-func LiveDesc() string { return mustExec("LiveDesc").liveDesc() }
+func LiveDesc() string {
+	if passthrough {
+		return ""
+	}
+	return mustExec("LiveDesc").liveDesc()
+}
+
+// LiveSites returns, for every unfinished managed thread (caller included), its spawn site.
+func LiveSites() []string {
+	if passthrough {
+		return nil
+	}
+	ex := mustExec("LiveSites")
+	var s []string
+	for _, t := range ex.threads {
+		if !t.done {
+			s = append(s, t.Site)
+		}
+	}
+	return s
+}
+
+// ThreadCount is the number of managed threads started so far in this execution.
+func ThreadCount() int {
+	if passthrough {
+		return 0
+	}
+	return len(mustExec("ThreadCount").threads)
+}
 
 // Self returns the running thread's id.
 func Self() int {
